@@ -2994,3 +2994,37 @@ def nodes_of_new(r: R, chk, quals: List[str], callee: str = "curves.BaseCurve.up
                    func=q, construct="interpolation nodes not taken from the new knot vector")
     chk.floor(rule, "update(...) calls with interpolation nodes", n, len(quals))
     return n
+
+
+# ---------------------------------------------------------------------------------------------------------
+# SLICE-REBUILD: slice(*s.indices(n)) is not s when the step is negative
+_SLICE_REBUILD_CONTROL = "def f(s, n):\n    return slice(*s.indices(n))\n"
+
+
+def _slice_rebuilds(fn):
+    out = []
+    for c in ast.walk(fn):
+        if isinstance(c, ast.Call) and seg(c.func) == "slice" and len(c.args) == 1 and isinstance(c.args[0], ast.Starred):
+            inner = c.args[0].value
+            if isinstance(inner, ast.Call) and isinstance(inner.func, ast.Attribute) and inner.func.attr == "indices":
+                out.append(c)
+    return out
+
+
+def slice_rebuild(r: R, chk, modules: List[str], rule="SLICE-REBUILD"):
+    """`s.indices(n)` gives (start, stop, step) for range(); with a negative step and an open end the stop is -1, which as a slice
+    bound means n - 1: `slice(*s.indices(n))` then selects nothing (x[::-1] becomes x[n-1:-1:-1] = ()).  A slice resolved
+    against a length has to be kept as the range / index list, never rebuilt as a slice."""
+    ctl = _slice_rebuilds(ast.parse(_SLICE_REBUILD_CONTROL))
+    n = 0
+    for fi in r.prog.all_functions():
+        if fi.module not in modules or fi.module == "__classes__":
+            continue
+        n += 1
+        for c in _slice_rebuilds(fi.node):
+            chk.ob(rule, f"{fi.qual}: `{seg(c, 40)}`", False, loc=f"{fi.module}.py:{c.lineno}",
+                   detail=f"{fi.qual}: `{seg(c, 50)}` rebuilds a slice from `.indices()`: for a negative step with an open end the stop comes back as -1, which a slice reads as 'one before the end' — f[::-1], f[::-2], f[k::-1] select no row (or the wrong rows) instead of the rows that the same slice selects on range(npts)",
+                   func=fi.qual, construct="slice rebuilt from .indices()")
+    chk.ob(rule, f"no slice is rebuilt from `.indices()` ({n} functions of {modules}; positive control {'recognised' if ctl else 'MISSING'})", bool(ctl), loc="",
+           detail="" if ctl else "the positive control of the rule is not recognised any more")
+    return n
